@@ -23,7 +23,7 @@ RULE = (
 ASSUMPTIONS = [
     "tolerances: vw 2*errTol+1e-4, vJ/vLTE/T+- 1e-4 relative; wall widths and wall-centre distances 1e-3 relative (10x the largest spread observed between relabelled runs on the unchanged tree; the solver's stopping rule gives no sharper a-priori bound)",
     "offsets are in units of each field's own width and the first field's offset is pinned to zero: the covariant quantities compared are the distances between wall centres z_i = -offset_i*width_i (mapped by the permutation)",
-    "out-of-equilibrium particles excluded",
+    "out-of-equilibrium particles: '+top' cases use one fermion with m^2 = yt^2 phi_0^2/2 in the original labelling (value and gradient transformed with the fields) and the synthetic relaxation collision operator of C01/offeq (shipped collision files are LFS pointers)",
 ]
 
 FSCALE = {"xsm2": [10.0, 7.0], "xsm3": [10.0, 7.0, 5.0], "cubicS": [10.0, 7.0]}
@@ -33,7 +33,7 @@ SPECTATOR = {"cubicS": 1}  # index (original labelling) of a field that is zero 
 def case_pair(c: dict) -> dict:
     r = Rel(c["id"])
     perm, signs, shift = c["perm"], c["signs"], c["shift"]
-    spec = dict(base=c["base"], Tn=c["Tn"], settings="default", M=c["M"], fscale=FSCALE[c["base"]])
+    spec = dict(base=c["base"], Tn=c["Tn"], settings="default", M=c["M"], fscale=FSCALE[c["base"]], offeq=c.get("offeq"))
     ref = pipeline(dict(spec))
     if ref.get("error") or ref["stage"] != "done":
         return r.result(inadmissible=f"reference run failed at stage {ref['stage']}: {ref.get('error')}")
@@ -69,6 +69,23 @@ def case_pair(c: dict) -> dict:
     extra = 2 * ref["errTol"] if ref["vw"] is not None else 0.0
     r.close("Tplus", got["Tplus"] / ref["Tplus"], 1.0, 2e-4 + extra)
     r.close("Tminus", got["Tminus"] / ref["Tminus"], 1.0, 2e-4 + extra)
+    if c.get("offeq"):
+        # out-of-equilibrium fields of the result are scalars under a relabelling of field space (the particle's mass function is
+        # transformed with the fields); the Boltzmann solution is linear in the source, i.e. in the wall shape, and inherits the wall-shape
+        # tolerance (1e-3 of the largest entry; largest spread measured on the unchanged tree 1.5e-4)
+        r.tag("offeq-pair")
+        r.true("offeq:result-says-out-of-equilibrium-included", got.get("hasOffEq") is True and ref.get("hasOffEq") is True)
+        for k in ("deltaF", "Delta00", "Delta02", "Delta20", "Delta11"):
+            r.close("offeq:" + k, got[k], ref[k], 1e-3 * np.max(np.abs(ref[k])))
+        r.close("offeq:truncationError", got["truncationError"] / ref["truncationError"], 1.0, 1e-3)
+        if len(set(signs)) == 1:
+            r.close("offeq:linearizationCriterion1", got["lin1"] / ref["lin1"], 1.0, 1e-3)
+            r.close("offeq:linearizationCriterion2", got["lin2"] / ref["lin2"], 1.0, 1e-3)
+        else:
+            # checkLinearization weights both integrals with d(sum_i phi_i)/dz, which is not invariant under the reflection of a
+            # single field; the criteria are diagnostics that C08's statement does not list -> recorded, not judged
+            r.tag("observation(linearization-criteria-weighted-by-d(sum of fields)/dz:not-reflection-covariant)"
+                  if abs(float(got["lin1"][0] / ref["lin1"][0]) - 1.0) > 5e-4 else "linearization-criteria-equal")
     # wall shape: ~10x the largest spread between relabelled runs observed on the unchanged tree (8.5e-5 in the widths over the
     # complete thorough lattice since the pinned offset is that of the field with the largest change, whatever the field order;
     # it was 6e-4, and the tolerance 5e-3, while field 0 was pinned); the solver's stopping rule gives no sharper a-priori bound
@@ -118,6 +135,20 @@ def cases(tier):
             for sh in shifts:
                 out.append(dict(base=base, Tn=Tn, perm=perm, signs=signs, shift=sh, M=20,
                                 id=f"{base},Tn={Tn:g},perm={perm},signs={signs},shift={sh}"))
+    # the same group WITH an out-of-equilibrium particle whose mass depends on field 0 of the ORIGINAL labelling (transformed with
+    # the fields) and the synthetic relaxation collision operator of C01/offeq: Boltzmann-coupled path of the solver
+    obases = [("xsm2", 100.0)] if tier == "quick" else [("xsm2", 100.0), ("xsm3", 100.0), ("cubicS", 100.0)]
+    storages = [(0.5, "Cardinal", 0), (2.0, "Chebyshev", 2), (0.5, "Chebyshev", 0)]
+    for base, Tn in obases:
+        n = 3 if base == "xsm3" else 2
+        shifts = [[0.0] * n, [37.0, -11.0, 23.0][:n], [400.0, 650.0, -500.0][:n]]
+        for gi, (perm, signs) in enumerate(MD.hyperoctahedral(n)):
+            for si, sh in enumerate(shifts):
+                if tier == "quick" and (gi + si) % 3 != 0:
+                    continue  # quick: every group element with one translation, every translation with a third of the group
+                kappa, basis, dN = storages[si]
+                out.append(dict(base=base, Tn=Tn, perm=perm, signs=signs, shift=sh, M=20, offeq=dict(kappa=kappa, basis=basis, dN=dN),
+                                id=f"{base}+top,Tn={Tn:g},perm={perm},signs={signs},shift={sh},kappa={kappa:g},stored={basis}/N+{dN}"))
     return out
 
 
